@@ -888,7 +888,7 @@ theorem write_spec (g : Grow) (d : Decoder) (p : List Byte) (acc : Nat) (h : Dec
 end Decoder
 /-! ## reference expansion: prefix independence and composition -/
 
-theorem copyRef_prepend (pre : List Byte) (o : Nat) : ∀ (m : Nat) (out out' : List Byte),
+theorem copyRef_prepend_d (pre : List Byte) (o : Nat) : ∀ (m : Nat) (out out' : List Byte),
     copyRef out o m = some out' → copyRef (pre ++ out) o m = some (pre ++ out') := by
   intro m
   induction m with
@@ -924,7 +924,7 @@ theorem copyRef_append (o : Nat) : ∀ (m : Nat) (out out' : List Byte),
       exact ⟨out[out.length - o]'(by omega) :: x, by rw [hx]; simp, by simp [hl]⟩
     · simp at h
 
-theorem expandSeqs_prepend (pre : List Byte) : ∀ (ss : List Seq) (out lits out' rest : List Byte),
+theorem expandSeqs_prepend_d (pre : List Byte) : ∀ (ss : List Seq) (out lits out' rest : List Byte),
     expandSeqs out lits ss = some (out', rest) →
     expandSeqs (pre ++ out) lits ss = some (pre ++ out', rest) := by
   intro ss
@@ -938,7 +938,7 @@ theorem expandSeqs_prepend (pre : List Byte) : ∀ (ss : List Seq) (out lits out
       simp only [hl, ↓reduceIte]
       split at h
       · rename_i o1 hc
-        have := copyRef_prepend pre s.offset _ _ _ hc
+        have := copyRef_prepend_d pre s.offset _ _ _ hc
         rw [← List.append_assoc] at this
         simp only [this]
         exact ih _ _ _ _ h
@@ -1202,7 +1202,7 @@ def WBSpec (g : Grow) : Prop :=
 theorem Expands.prefix {hist lits out : List Byte} {seqs : List Seq} {k l : Nat} (pre : List Byte)
     (h : Expands hist lits seqs k l out) : Expands (pre ++ hist) lits seqs k l (pre ++ out) := by
   obtain ⟨a0, o1, r1, t1, a1, a2, a3, a4, a5⟩ := h
-  exact ⟨a0, pre ++ o1, r1, t1, expandSeqs_prepend pre _ _ _ _ _ a1, a2, a3, a4,
+  exact ⟨a0, pre ++ o1, r1, t1, expandSeqs_prepend_d pre _ _ _ _ _ a1, a2, a3, a4,
     by rw [a5, List.append_assoc]⟩
 
 theorem Expands.lits_only (mid lits : List Byte) (m : Nat) (h : m ≤ lits.length) :
